@@ -415,7 +415,14 @@ def drv_multi(case, rnd, ctx):
         curves = [base] + [[(x + rnd.uniform(-amp, amp), y + rnd.uniform(-amp, amp)) for x, y in base] for _ in range(m - 1)]
         if rnd.random() < 0.2:
             curves[rnd.randrange(m)] = gen_cubic(rnd, rnd.choice(["collinear", "three_equal", "all_equal"]), case["mag"])
+        if m >= 3 and rnd.random() < 0.35:
+            # identical masters (very common in real designspaces: a glyph that does not
+            # vary along one axis), in every relative position
+            a, b = rnd.sample(range(m), 2)
+            curves[b] = list(curves[a])
         tols = [gen_tol(rnd, case["mag"]) if rnd.random() < 0.5 else 1.0 for _ in range(m)]
+        if rnd.random() < 0.5:
+            tols = [tols[0]] * m
         allq = rnd.random() < 0.8
         r = _try(curves_to_quadratic, curves, tols, allq)
         if i == 0:
